@@ -109,7 +109,7 @@ ArrsUpTo(E, n) == {[k |-> "arr", s |-> <<>>, c |-> Present([i \in 1..n |-> Mem(<
 Objs(K, E) == {VObj(Present([i \in 1..Len(K) |-> Mem(K[i], f[i])])) : f \in [1..Len(K) -> E \cup {NoValue}]}
 Kc == <<99>>
 D1 == IF Quick THEN ArrsUpTo(Scalars, 2) \cup Objs(<<Kb, Ka>>, Scalars)
-               ELSE ArrsUpTo(Scalars, 2) \cup Objs(<<Kc, Ka, Kb>>, Scalars)
+               ELSE ArrsUpTo(Scalars, 2) \cup Objs(<<Kc, Ka, Kb>>, {One, VStr(Ka)})
 E1 == Scalars \cup D1
 Nest(S) == {Sc("nest", v, 0, 0, TRUE, FALSE) : v \in S}
 FamNestA == Nest(ArrsUpTo(E1, 2))
